@@ -477,18 +477,28 @@ def nat_sched_run(params, model):
         mb = mbm.Mailbox("mb", timeout=1, lazy=params["lazy"], max_messages=params["cap"])
         got = [[] for _ in range(nsubs)]
 
+        maxlen = {"v": 0}
+
         def reader(it, j):
             for x in it:
                 got[j].append(x)
+                maxlen["v"] = max(maxlen["v"], len(mb._mailbox))
                 s.pause()
+
+        def source():
+            for i in range(nmsg):
+                maxlen["v"] = max(maxlen["v"], len(mb._mailbox))
+                yield ("msg", i)
 
         for j in range(nsubs):
             mb.add_reader(reader, j=j, can_drive=params["drivers"][j])
-        mb.add_sender(iter([("msg", i) for i in range(nmsg)]))
+        mb.add_sender(source())
         mb.start()
         s.finish()
     ok = s.deadlock is None and all(g == [("msg", i) for i in range(nmsg)] for g in got)
-    return {"ok": ok, "detail": f"deadlock={s.deadlock} got={got} trace={s.trace}"}
+    if not params["lazy"]:
+        ok = ok and maxlen["v"] <= params["cap"]
+    return {"ok": ok, "detail": f"deadlock={s.deadlock} got={got} maxlen={maxlen['v']} trace={s.trace}"}
 
 
 # ---------------------------------------------------------------------------- divide_outputs
